@@ -8,10 +8,10 @@ import (
 	"bufio"
 	"bytes"
 	"context"
-	"encoding/binary"
 	"encoding/hex"
 	"fmt"
 	"io"
+	"math/big"
 	"strconv"
 	"strings"
 	"sync"
@@ -56,7 +56,7 @@ type opt struct {
 
 type wmsg struct {
 	code   int
-	tok    uint64
+	tok    string // decimal token number, see tokBytes
 	b1, b2 *uint32
 	s1, s2 *uint32
 	etag   []byte // nil = absent
@@ -64,21 +64,50 @@ type wmsg struct {
 	body   []byte
 }
 
-func tokBytes(t uint64) message.Token {
-	if t == 0 {
+var two64 = new(big.Int).Lsh(big.NewInt(1), 64)
+
+// tokBytes maps a token number of the line protocol to the token on the wire:
+//   0                      -> empty token
+//   n < 2^64               -> the 8 bytes of n, big-endian
+//   2^64 + 256^k + v       -> the k bytes (1 <= k <= 7) of v < 256^k, big-endian
+// so that tokens of every length, with leading / trailing zero bytes, are expressible and distinct numbers are distinct tokens.
+func tokBytes(t string) message.Token {
+	n, ok := new(big.Int).SetString(t, 10)
+	if !ok || n.Sign() == 0 {
 		return nil
 	}
-	b := make([]byte, 8)
-	binary.BigEndian.PutUint64(b, t)
-	return b
+	if n.Cmp(two64) < 0 {
+		b := make([]byte, 8)
+		n.FillBytes(b)
+		return b
+	}
+	m := new(big.Int).Sub(n, two64)
+	for k := 1; k <= 7; k++ {
+		lo := new(big.Int).Lsh(big.NewInt(1), uint(8*k))
+		hi := new(big.Int).Lsh(big.NewInt(1), uint(8*k+1))
+		if m.Cmp(lo) >= 0 && m.Cmp(hi) < 0 {
+			b := make([]byte, k)
+			new(big.Int).Sub(m, lo).FillBytes(b)
+			return b
+		}
+	}
+	panic("bad token number " + t)
 }
 
-func tokNum(t message.Token) uint64 {
+func tokNum(t message.Token) string {
 	if len(t) == 0 {
-		return 0
+		return "0"
 	}
-	b := append(make([]byte, 8-len(t)), t...)
-	return binary.BigEndian.Uint64(b)
+	v := new(big.Int).SetBytes(t)
+	if len(t) == 8 {
+		return v.String()
+	}
+	if len(t) > 8 {
+		panic("token longer than 8 bytes")
+	}
+	v.Add(v, new(big.Int).Lsh(big.NewInt(1), uint(8*len(t))))
+	v.Add(v, two64)
+	return v.String()
 }
 
 func readBody(m *pool.Message) []byte {
@@ -166,7 +195,7 @@ func (s wmsg) String() string {
 		}
 		other = strings.Join(parts, ",")
 	}
-	return fmt.Sprintf("%d %d %s %s %s %s %s %s %d %016x", s.code, s.tok, fmtBlk(s.b1), fmtBlk(s.b2), fmtU32(s.s1), fmtU32(s.s2),
+	return fmt.Sprintf("%d %s %s %s %s %s %s %s %d %016x", s.code, s.tok, fmtBlk(s.b1), fmtBlk(s.b2), fmtU32(s.s1), fmtU32(s.s2),
 		etag, other, len(s.body), fnv(s.body))
 }
 
@@ -227,7 +256,7 @@ type world struct {
 	queue   []packet
 	hist    []packet
 	regs    map[string]wmsg         // "A/7" -> registered message
-	waiters map[uint64]chan wmsg    // token handlers of pending Do calls of A
+	waiters map[string]chan wmsg    // token handlers of pending Do calls of A
 	cancels []context.CancelFunc
 }
 
@@ -284,7 +313,7 @@ func (w *world) next(e *endpoint) func(rw *responsewriter.ResponseWriter[*endpoi
 		}
 		if s.code >= int(codes.GET) && s.code <= int(codes.DELETE) {
 			w.mu.Lock()
-			reg, ok := w.regs[fmt.Sprintf("B/%d", s.tok)]
+			reg, ok := w.regs["B/"+s.tok]
 			w.mu.Unlock()
 			if ok {
 				reg.tok = s.tok
@@ -384,14 +413,13 @@ func (w *world) apply(f []string) (done bool) {
 	switch f[0] {
 	case "reg":
 		m := wmsg{code: atoi(f[3]), etag: parseEtag(f[6]), other: parseOther(f[7]), body: genBody(atoi(f[5]), 0, atoi(f[4]))}
-		t, _ := strconv.ParseUint(f[2], 10, 64)
-		m.tok = t
+		m.tok = f[2]
 		w.mu.Lock()
 		w.regs[f[1]+"/"+f[2]] = m
 		w.mu.Unlock()
 		w.log("ok")
 	case "do":
-		tok, _ := strconv.ParseUint(f[1], 10, 64)
+		tok := f[1]
 		w.mu.Lock()
 		reg, ok := w.regs["A/"+f[1]]
 		w.mu.Unlock()
@@ -426,10 +454,10 @@ func (w *world) apply(f []string) (done bool) {
 				}
 			})
 			if err != nil {
-				w.log(fmt.Sprintf("ret %d err", tok))
+				w.log(fmt.Sprintf("ret %s err", tok))
 				return
 			}
-			w.log(fmt.Sprintf("ret %d ok %s", tok, snapshot(resp).String()))
+			w.log(fmt.Sprintf("ret %s ok %s", tok, snapshot(resp).String()))
 		}()
 	case "write":
 		e := w.side(f[1])
@@ -481,8 +509,7 @@ func (w *world) apply(f []string) (done bool) {
 			w.log("bad-op")
 		}
 	case "inject":
-		t, _ := strconv.ParseUint(f[3], 10, 64)
-		m := wmsg{code: atoi(f[2]), tok: t, b1: parseBlk(f[4]), b2: parseBlk(f[5]), s1: parseU32(f[6]), s2: parseU32(f[7]),
+		m := wmsg{code: atoi(f[2]), tok: f[3], b1: parseBlk(f[4]), b2: parseBlk(f[5]), s1: parseU32(f[6]), s2: parseU32(f[7]),
 			etag: parseEtag(f[8]), other: parseOther(f[9]), body: genBody(atoi(f[10]), atoi(f[11]), atoi(f[12]))}
 		w.recv(w.side(f[1]), m)
 	case "sleep":
@@ -491,6 +518,8 @@ func (w *world) apply(f []string) (done bool) {
 		w.side(f[1]).bw.CheckExpirations(time.Now())
 		synctest.Wait()
 		w.log(w.sizes())
+	case "settle":
+		w.log(fmt.Sprintf("queue %d", len(w.queue)))
 	case "end":
 		time.Sleep(3600 * time.Second)
 		synctest.Wait()
@@ -505,7 +534,7 @@ func (w *world) apply(f []string) (done bool) {
 	return false
 }
 
-var arity = map[string]int{"reg": 8, "do": 3, "write": 3, "inject": 13, "sleep": 2, "tick": 2, "end": 1}
+var arity = map[string]int{"reg": 8, "do": 3, "write": 3, "inject": 13, "sleep": 2, "tick": 2, "settle": 1, "end": 1}
 
 func wellFormed(f []string) bool {
 	if len(f) == 0 {
@@ -521,7 +550,7 @@ func wellFormed(f []string) bool {
 func runCase(t *testing.T, cfg []string, ops [][]string) []string {
 	out := make([]string, len(ops))
 	synctest.Test(t, func(t *testing.T) {
-		w := &world{regs: map[string]wmsg{}, waiters: map[uint64]chan wmsg{}}
+		w := &world{regs: map[string]wmsg{}, waiters: map[string]chan wmsg{}}
 		w.a = newEndpoint(w, "A", atoi(cfg[1]), uint32(atoi(cfg[2])), time.Duration(atoi(cfg[3]))*time.Millisecond)
 		w.b = newEndpoint(w, "B", atoi(cfg[4]), uint32(atoi(cfg[5])), time.Duration(atoi(cfg[6]))*time.Millisecond)
 		ended := false
